@@ -228,6 +228,15 @@ def cov_between(model, X, Y, nugget_aware):
     return out
 
 
+def canon(model, P):
+    """canonical representation of positions for functions of position: longitudes in (-180, 180]"""
+    P = np.array(P, dtype=float)
+    if model.latlon:
+        lon = np.mod(P[1] + 180.0, 360.0) - 180.0
+        P[1] = np.where(lon == -180.0, 180.0, lon)
+    return P
+
+
 def textbook(spec, cond_val=None, Y=None):
     """the kriging system of the textbooks built from public model functions and solved with
     numpy.linalg.solve.  Returns dict(raw, field, var, err, cond, K, k, d, lam, sfield, serr)"""
@@ -252,9 +261,9 @@ def textbook(spec, cond_val=None, Y=None):
             for o in range(1, int(order) + 1):
                 for sel in itertools.combinations_with_replacement(range(X.shape[0]), o):
                     fs.append(lambda *p, sel=sel: np.prod([np.asarray(p[i], dtype=float) for i in sel], axis=0))
-        for f in fs:
-            F.append(np.broadcast_to(f(*X), (n,)))
-            G.append(np.broadcast_to(f(*Y), (m,)))
+        for f in fs:      # drift functions are functions of the POINT: same value for lon and lon + 360
+            F.append(np.broadcast_to(f(*canon(model, X)), (n,)))
+            G.append(np.broadcast_to(f(*canon(model, Y)), (m,)))
     if v == "ExtDrift":
         F += list(ext_drift_at(spec, X))
         G += list(ext_drift_at(spec, Y))
@@ -315,7 +324,8 @@ def sys_args(kr):
     C_ = np.ascontiguousarray(kr.model.covariance(kr._get_dists(kr._krige_pos))).reshape(n, n)
     err = kr.cond_err
     scalar = np.ndim(err) == 0
-    fint = np.array([np.broadcast_to(np.asarray(f(*kr.cond_pos), dtype=float), (n,)) for f in kr.drift_functions],
+    dpos = kr.model.anisometrize(kr._krige_pos) if kr.int_drift_no > 0 else None
+    fint = np.array([np.broadcast_to(np.asarray(f(*dpos), dtype=float), (n,)) for f in kr.drift_functions],
                     dtype=float).reshape(len(kr.drift_functions), n)
     fext = np.asarray(kr.cond_ext_drift, dtype=float)
     fext = fext.reshape(fext.shape[0], n) if fext.size else np.zeros((0, n))
@@ -408,10 +418,12 @@ def gen_model(rng, dim=None, geo=None, classes=None):
     return dict(cls=cls, kw=kw), fd, geo
 
 
-def gen_points(rng, geo, fd, n, grid=False):
+def gen_points(rng, geo, fd, n, grid=False, lon360=False):
     if geo in ("latlon", "latlon_time"):
         lat = rng.uniform(-70, 70, n)
         lon = rng.uniform(-170, 170, n)
+        if lon360:
+            lon = np.where(lon < 0, lon + 360.0, lon)
         rows = [lat, lon]
         if geo == "latlon_time":
             rows.append(rng.uniform(0, 5, n))
@@ -421,7 +433,7 @@ def gen_points(rng, geo, fd, n, grid=False):
 
 
 def gen_spec(rng, variant=None, geo=None, dim=None, n=None, m=None, allow_norm=True, tier="quick", classes=None,
-             exact=None, nugget=None):
+             exact=None, nugget=None, norm_prob=0.35, mean_nonzero=False):
     variant = variant or str(rng.choice(VARIANTS))
     ms, fd, geo = gen_model(rng, dim=dim, geo=geo, classes=classes)
     if nugget is not None:
@@ -444,15 +456,18 @@ def gen_spec(rng, variant=None, geo=None, dim=None, n=None, m=None, allow_norm=T
     if spec.get("drift") == "quadratic":
         p = fd + fd * (fd + 1) // 2
     n = max(n, p + 2)
-    spec["cond_pos"] = gen_points(rng, geo, fd, n)
+    lon360 = bool(rng.random() < 0.4)
+    spec["cond_pos"] = gen_points(rng, geo, fd, n, lon360=lon360)
     X = np.asarray(spec["cond_pos"])
     nz = None
-    if allow_norm and variant != "Detrended" and rng.random() < 0.35:
+    if allow_norm and variant != "Detrended" and rng.random() < norm_prob:
         nz = ["LogNormal"] if rng.random() < 0.5 else ["BoxCox", float(rng.choice([0.5, 2.0, -0.5]))]
     if variant == "Simple":
         spec["mean"] = [None, 0.0, float(np.round(rng.normal(), 3)), "lin"][int(rng.integers(4))]
         if nz is not None:
             spec["mean"] = [None, 0.0, 0.3][int(rng.integers(3))]
+        if mean_nonzero:
+            spec["mean"] = [0.3, -0.4][int(rng.integers(2))] if nz is not None else [0.3, float(np.round(rng.normal(), 3)) + 0.05, "lin"][int(rng.integers(3))]
     spec["trend"] = [None, None, float(np.round(rng.normal(), 3)), "quad", "sin"][int(rng.integers(5))]
     if variant == "Detrended":
         spec["trend"] = ["quad", "sin", "lin"][int(rng.integers(3))]
@@ -479,14 +494,14 @@ def gen_spec(rng, variant=None, geo=None, dim=None, n=None, m=None, allow_norm=T
         for a in range(fd):
             k = int(rng.integers(1, 4))
             if geo in ("latlon", "latlon_time") and a < 2:
-                axes.append(list(map(float, np.round(np.sort(rng.uniform(-60, 60, k)), 3))))
+                axes.append(list(map(float, np.round(np.sort(rng.uniform(-60, 60, k)) + (200.0 if (a == 1 and lon360) else 0.0), 3))))
             else:
                 axes.append(list(map(float, np.round(np.sort(rng.uniform(0, 10, k)), 3))))
         spec["pos"] = axes
         spec["mesh_type"] = "structured"
         m = int(np.prod([len(a) for a in axes]))
     else:
-        spec["pos"] = gen_points(rng, geo, fd, m)
+        spec["pos"] = gen_points(rng, geo, fd, m, lon360=lon360)
         if rng.random() < 0.5:     # one target sits exactly on a conditioning point (nugget-aware right-hand side)
             j, t = int(rng.integers(n)), int(rng.integers(m))
             for a in range(fd):
@@ -543,6 +558,8 @@ def correspond_case(ctx, drv, spec, stats, what="all"):
     def bad(stage, msg, **kw):
         nonlocal ok
         ok = False
+        if not _limit("corr:" + stage):
+            return
         ctx.violation("correspondence: " + stage, msg, dict(case, **{k: (v.tolist() if hasattr(v, "tolist") else v) for k, v in kw.items()}),
                       key="corr:" + stage, no_input=True)
 
@@ -697,7 +714,18 @@ TRUSTED = [
 
 # --------------------------------------------------------------------------- probes on the implementation
 
+_SEEN = {}
+
+
+def _limit(key, cap=3):
+    """at most `cap` replay files per violation key and run (the first ones; the rest are only counted)"""
+    _SEEN[key] = _SEEN.get(key, 0) + 1
+    return _SEEN[key] <= cap
+
+
 def _viol(ctx, stage, what, spec, key, **kw):
+    if not _limit(key):
+        return
     case = dict(spec=jsonable(spec))
     for k, v in kw.items():
         case[k] = v.tolist() if hasattr(v, "tolist") else v
@@ -783,6 +811,16 @@ def probe_metamorphic(ctx, rng, spec, stats, tb):
         return
     tf = tol_solve(tb["cond"], tb["sfield"])
     tv = tol_solve(tb["cond"], tb["serr"])
+    # ---- lat-lon: the same points given with longitude + 360 (callable mean / trend excluded: user functions of lon)
+    if (spec.get("geo") in ("latlon", "latlon_time") and not isinstance(spec.get("trend"), str)
+            and not isinstance(spec.get("mean"), str) and v != "ExtDrift"):
+        sh = lambda P: [list(P[0]), [x + 360.0 for x in P[1]]] + [list(r) for r in P[2:]]
+        s2 = dict(spec, cond_pos=sh(spec["cond_pos"]), pos=sh(spec["pos"]))
+        _, f2, v2, fr2 = impl_results(s2)
+        ctx.count(None, hist=dict(probe="lon_wrap"))
+        if not (np.all(np.abs(fr2.reshape(-1) - fr.reshape(-1)) <= 2 * tf) and np.all(np.abs(v2.reshape(-1) - var.reshape(-1)) <= 2 * tv)):
+            _viol(ctx, "lon_wrap", "result changes when all longitudes are given as lon + 360 (max dev %.3g, tol %.3g)" % (
+                np.abs(fr2.reshape(-1) - fr.reshape(-1)).max(), 2 * tf.max()), s2, "lon_wrap", a=fr, b=fr2)
     nz = tb["nz"]
     mean_t = fval(tb["mean"], tb["Y"], m)
     # ---- permutation of the conditioning points
@@ -910,7 +948,8 @@ def probe_duplicates(ctx, rng, spec, stats):
     val = np.asarray(spec["cond_val"], dtype=float)
     n = len(val)
     a = int(rng.integers(n))
-    other = float(val[a] + np.round(rng.normal(), 3)) if spec.get("normalizer") is None else float(val[a] * 1.3)
+    tr_a0 = fval(spec.get("trend"), X[:, a:a + 1], 1)[0]
+    other = float(val[a] + np.round(rng.normal(), 3)) if spec.get("normalizer") is None else float(tr_a0 + (val[a] - tr_a0) * 1.3)
     base = dict(spec, cond_err="nugget", exact=False, pseudo_inv=True)
     base["model"] = dict(spec["model"], kw=dict(spec["model"]["kw"], nugget=0.0))
     if base.get("pseudo_inv_type") == "callable":
